@@ -139,3 +139,33 @@ Proof.
     (split; [|split]); try reflexivity; try (f_equal; first [lra | field | ring]); first [lra | field | ring].
 Qed.
 Print Assumptions C01_link_apu_eq_model.
+
+(* ---- thrust category and BFFM2 speciation along the trajectory (utils.py:get_thrust_cat_cruise, ei/nox.py:BFFM2_EINOx,
+        trajectory.py:compute_EI_NOx) ---- *)
+Theorem C01_link_thrust_cat_eq_model : forall a b c d ff : R,
+  @x_thrust_cat RNum a b c d ff = @thrust_cat RNum (a, b, c, d) ff.
+Proof. intros. reflexivity. Qed.
+Print Assumptions C01_link_thrust_cat_eq_model.
+
+Theorem C01_link_thrust_cat_eq_model_binary64 : forall a b c d ff : PrimFloat.float,
+  @x_thrust_cat FNum a b c d ff = @thrust_cat FNum (a, b, c, d) ff.
+Proof. intros. reflexivity. Qed.
+Print Assumptions C01_link_thrust_cat_eq_model_binary64.
+
+Theorem C01_link_bffm2_parts_close : forall cat (nox : R),
+  let '(no, no2, hono) := @x_bffm2_parts RNum cat nox in no + no2 + hono = nox.
+Proof.
+  intros cat nox. pose proof C01_link_speciation_sums_to_one as S. unfold tm_add3 in S. unfold x_bffm2_parts.
+  destruct (@x_sp_no RNum) as [[[n1 n2] n3] n4], (@x_sp_no2 RNum) as [[[m1 m2] m3] m4],
+           (@x_sp_hono RNum) as [[[h1 h2] h3] h4]. inversion S as [[S1 S2 S3 S4]].
+  destruct cat; cbn; rnum; nra.
+Qed.
+Print Assumptions C01_link_bffm2_parts_close.
+
+Theorem C01_link_bffm2_parts_eq_model : forall cat (nox : R),
+  @x_bffm2_parts RNum cat nox = (nox * @tm_get RNum cat sp_no, nox * @tm_get RNum cat sp_no2, nox * @tm_get RNum cat sp_hono).
+Proof.
+  intros cat nox. pose proof C01_link_speciation_eq_model as (E1 & E2 & E3). unfold x_bffm2_parts.
+  rewrite E1, E2, E3. reflexivity.
+Qed.
+Print Assumptions C01_link_bffm2_parts_eq_model.
